@@ -4,7 +4,7 @@
 export GOFLAGS=-mod=mod GOPROXY=off GOSUMDB=off GOTOOLCHAIN=local
 V=$(cd "$(dirname "$0")/.." && pwd)
 cd $V
-WT=/dev/shm/verif-matrix-wt
+WT=/dev/shm/verif-matrix-wt-$$
 ids=$(python3 -c "import json;print(' '.join(c['property_id'] for c in json.load(open('MANIFEST.json'))['checks']))")
 seeds=${@:-$(ls seeded | grep -E '^C[0-9]+-')}
 rm -rf $WT; git -C /repo worktree prune; git -C /repo worktree add -q $WT HEAD || exit 2
@@ -12,9 +12,9 @@ for s in $seeds; do
   (cd $WT && git checkout -q -- . && git apply $V/seeded/$s/patch.diff) || { echo "$s: patch does not apply"; continue; }
   : > seeded/$s/matrix.txt
   for p in $ids; do
-    o=$(VERIF_REPO=$WT VERIF_OUT=/dev/shm/verif-matrix-out timeout 900 ./check $p quick 2>&1); rc=$?
+    o=$(VERIF_REPO=$WT VERIF_OUT=/dev/shm/verif-matrix-out-$$ timeout 900 ./check $p quick 2>&1); rc=$?
     sig=$(echo "$o" | grep -E "sig:" | head -1 | sed 's/^ *sig: //' | cut -c1-110)
     echo "$s $p rc=$rc $sig" | tee -a seeded/$s/matrix.txt
   done
 done
-git -C /repo worktree remove --force $WT; rm -rf /dev/shm/verif-matrix-out
+git -C /repo worktree remove --force $WT; rm -rf /dev/shm/verif-matrix-out-$$
